@@ -16,7 +16,7 @@ RULE = ('Each worker draws a pool of documents (fixtures, generated valid and fa
         'non-trivial = distinct (previous document, document) adjacencies compared.')
 ASSUMPTIONS = ['time- and random-derived envelope fields of the acknowledgement and the HTML date line are the only exempted differences',
                'module-level containers that are registries filled at import time may only change by the first use of a map (none are expected)']
-REQUIRED_COUNTERS = ['cli-histories', 'histories', 'history-steps', 'fresh-processes', 'comparisons', 'sentinel-checks', 'sentinels:mutable-defaults', 'distinct-hashseeds']
+REQUIRED_COUNTERS = ['history-steps:one-object-reconfigured', 'history-steps:with-exclusion', 'cli-histories', 'histories', 'history-steps', 'fresh-processes', 'comparisons', 'sentinel-checks', 'sentinels:mutable-defaults', 'distinct-hashseeds']
 MIN_CASES = {'quick': 250, 'thorough': 8000}
 WATCHDOG_S = {'quick': 1500, 'thorough': 7200}
 
@@ -126,7 +126,7 @@ def sentinels():
     return snap
 
 
-def child_main(path, charset='E'):
+def child_main(path, charset='E', excl=None):
     text = open(path, encoding='utf-8', newline='').read()
     import logging
     import pyx12.params
@@ -134,17 +134,19 @@ def child_main(path, charset='E'):
     logging.getLogger('pyx12').propagate = False
     p = pyx12.params.params()
     p.set('charset', charset)
+    if excl:
+        p.set('exclude_external_codes', excl)
     out = observe(text, p)
     json.dump(out, sys.stdout)
 
 
-def fresh(ctx, text, hashseed, charset='E'):
+def fresh(ctx, text, hashseed, charset='E', excl=None):
     path = os.path.join(ctx.scratch, 'c18-%d.x12' % ctx.shard)
     with open(path, 'w', encoding='utf-8', newline='') as fd:
         fd.write(text)
     env = dict(os.environ)
     env['PYTHONHASHSEED'] = str(hashseed)
-    p = subprocess.run([sys.executable, '-m', 'checks.c18', '--child', path, charset], stdout=subprocess.PIPE, stderr=subprocess.PIPE, env=env, timeout=300,
+    p = subprocess.run([sys.executable, '-m', 'checks.c18', '--child', path, charset, excl or ''], stdout=subprocess.PIPE, stderr=subprocess.PIPE, env=env, timeout=300,
                        cwd=os.path.dirname(os.path.dirname(os.path.abspath(__file__))))
     ctx.count('fresh-processes')
     if p.returncode != 0:
@@ -212,6 +214,23 @@ def make_pool(ctx):
             except gen_doc.GenFailed:
                 pass
             break
+    # a document whose only fault is a value outside an external code set: what it gets depends on the exclusion option of THIS run alone
+    for e in entries:
+        try:
+            doc = gen_doc.gen_document(e, rng.randrange(1 << 30), fill=0.5, opt_prob=0.6, maxrep=1, charset='E', n_st=1, n_gs=1)
+        except gen_doc.GenFailed:
+            continue
+        if len(doc.recs) > 200:
+            continue
+        f = None
+        for _ in range(6):
+            f = faults.inject(rng, doc, kind='bad_code', tries=3)
+            if f is not None and getattr(f, 'external', None):
+                break
+            f = None
+        if f is not None:
+            pool.append(('directed:outside-external-set:%s:%s' % (f.external, e['file']), f.doc.text()))
+            break
     # the same data under both interchange versions (the extended character set differs: ^ and ` are 5010 only)
     if '834_lui_id' in fx and '834_lui_id_5010' in fx:
         for nm in ('834_lui_id', '834_lui_id_5010'):
@@ -260,6 +279,8 @@ def run(ctx):
         for cs in ('E', 'B'):
             plist[cs] = pyx12.params.params()
             plist[cs].set('charset', cs)
+        one = pyx12.params.params()
+        ext_sets = sorted(set(nm.split(':')[2] for nm, _t in pool if nm.startswith('directed:outside-external-set:')))
         length = rng.randint(6, 20)
         prev = None
         ctx.count('histories')
@@ -267,14 +288,31 @@ def run(ctx):
         for step in range(length):
             name, text = pool[rng.randrange(len(pool))] if not (prev and rng.random() < 0.2) else (prev, dict(pool)[prev])
             cs = 'B' if rng.random() < 0.3 else 'E'
-            hist.append(name + '/' + cs)
-            got = observe(text, plist[cs])
+            excl = None
+            if h % 2 == 1:
+                # ONE parameter object for the whole history, re-configured before every document (character set and the external code sets
+                # to leave out): every run follows the configuration it was given, not that of an earlier run
+                if ext_sets and rng.random() < 0.5:
+                    excl = rng.choice(ext_sets)
+                if name.startswith('directed:outside-external-set:') and rng.random() < 0.6:
+                    excl = rng.choice([name.split(':')[2], None])
+                one.set('charset', cs)
+                one.set('exclude_external_codes', excl or '')
+                hist.append(name + '/' + cs + '/' + str(excl))
+                got = observe(text, one)
+                ctx.count('history-steps:one-object-reconfigured')
+                if excl:
+                    ctx.count('history-steps:with-exclusion')
+            else:
+                hist.append(name + '/' + cs)
+                got = observe(text, plist[cs])
             ctx.count('history-steps')
             ctx.count('history-steps:charset-' + cs)
             n += 1
-            if cs == 'B' and (name, 'B') not in fresh_res:
-                fresh_res[(name, 'B')] = fresh(ctx, text, 1 + zlib.crc32(name.encode()) % 4000, 'B')
-            want = fresh_res[name] if cs == 'E' else fresh_res[(name, 'B')]
+            fk = name if (cs == 'E' and not excl) else (name, cs, excl)
+            if fk not in fresh_res:
+                fresh_res[fk] = fresh(ctx, text, 1 + zlib.crc32(repr(fk).encode()) % 4000, cs, excl)
+            want = fresh_res[fk]
             for k in want:
                 ctx.count('comparisons')
                 if got.get(k) != want[k]:
@@ -353,4 +391,4 @@ def replay(ctx, case):
 
 if __name__ == '__main__':
     if len(sys.argv) >= 3 and sys.argv[1] == '--child':
-        child_main(sys.argv[2], sys.argv[3] if len(sys.argv) > 3 else 'E')
+        child_main(sys.argv[2], sys.argv[3] if len(sys.argv) > 3 else 'E', sys.argv[4] if len(sys.argv) > 4 and sys.argv[4] else None)
